@@ -19,13 +19,16 @@
     * `raft_log_matching`            same (position, term) in two logs ⇒ identical prefixes (full)
     * `raft_log_wellformed`          index consistency of logs and AppendEntries segments
   PARTIAL (full statement kept as `def …Statement`):
-    * `RaftCommittedPrefixAgreementStatement` - see `raft_committed_prefix_agreement_partial` (leader
-      completeness is the missing lemma).
+    * `RaftCommittedPrefixAgreementStatement` - reduced to ONE named missing lemma:
+      `raft_agreement_of_leader_completeness : RaftLeaderCompletenessStatement n → RaftCommittedPrefixAgreementStatement n`
+      (proved, via `raft_commit_provenance` and log matching); `RaftLeaderCompletenessStatement` itself is only stated.
+      Also `raft_committed_prefix_agreement_partial` (commit <= log length, emitted <= commit).
 -/
 import HvProto.Lemmas.PaxosInst
 import HvProto.Lemmas.RaftRefine
 import HvProto.Lemmas.RaftLog
 import HvProto.Lemmas.RaftMatch
+import HvProto.Lemmas.RaftCommit
 
 namespace HvProto.C40
 open HvProto
@@ -214,14 +217,86 @@ theorem raft_log_wellformed (n : Nat) (s : Raft.Sys) (h : Raft.Reach n s) :
 /-- PARTIAL towards `RaftCommittedPrefixAgreementStatement`: in every reachable state the committed
     prefix of every member really is a prefix of its log (`commit_index <= log.len()`, so the emission loop
     never indexes out of bounds and the truncation guard protects it), and what was emitted is committed
-    (`emitted_index <= commit_index`).
-    MISSING: leader completeness (a leader of a later term holds every entry committed earlier), which
-    together with `raft_log_matching` (proved) yields agreement of the committed prefixes of different
-    members. Leader completeness needs the interplay of the commit rule (`advanceLoop`: current-term entry
-    acknowledged by a majority through `match_index`) with the §5.4.1 vote check; not proved here. -/
+    (`emitted_index <= commit_index`). -/
 theorem raft_committed_prefix_agreement_partial (n : Nat) (s : Raft.Sys) (h : Raft.Reach n s) (v : Nat) :
     (s.nodes v).commitIndex ≤ (s.nodes v).log.length ∧ (s.nodes v).emittedIndex ≤ (s.nodes v).commitIndex := by
   have hw := Raft.aux_winv_reach n s h
   exact ⟨hw.commitLe v, hw.emitLe v⟩
+
+/-- **Leader completeness** (RAFT §5.4.3), stated on the executions instrumented with two history variables
+    that are determined by the execution (`Raft.GReach`, Lemmas/RaftCommit.lean): `tl u` / `cm u` = the log /
+    the `commit_index` of the leader of term `u` as of the last state in which it was leader.  It says: whenever
+    a later term `u > t` has a leader, the log of that leader (from its election on) starts with the `cm t`
+    entries the leader of term `t` has committed.  NOT PROVED (it needs the interplay of the commit rule -
+    current-term entry acknowledged by a majority through `match_index` - with the §5.4.1 vote check). -/
+def RaftLeaderCompletenessStatement (n : Nat) : Prop :=
+  ∀ s tl cm, Raft.GReach n s tl cm → ∀ t u, t < u → (∃ c, s.elected c u) →
+    (tl u).take (cm t) = (tl t).take (cm t)
+
+/-- The reduction: leader completeness is the ONLY missing lemma.  Committed-prefix agreement follows from it
+    by commit provenance (proved: every member's committed prefix is a prefix of the term log of a term whose
+    leader had committed at least as much - it was adopted by `min(leader_commit, new_match)` from an accepted
+    `AppendEntries` of that leader after the append loop made the log equal to the leader's up to `new_match`,
+    or the member is that leader; the truncation guard never touches it) and log matching. -/
+theorem raft_agreement_of_leader_completeness (n : Nat) (h : RaftLeaderCompletenessStatement n) :
+    RaftCommittedPrefixAgreementStatement n :=
+  fun s hs a b i ha hb => Raft.aux_agreement_of_lc n h s hs a b i ha hb
+
+/-- Commit provenance, as used by the reduction: every execution of the implementation has history variables
+    `tl`, `cm` (per-term leader log / leader commit index) such that the committed prefix of every member `v` is
+    the prefix of `tl t` for some term `t` (that had a leader, unless nothing is committed) whose leader
+    committed at least `commit_index(v)` entries; leaders never commit beyond their log. -/
+theorem raft_commit_provenance (n : Nat) (s : Raft.Sys) (h : Raft.Reach n s) :
+    ∃ sm tl cm, Raft.GReach n sm tl cm ∧ s.nodes = sm.nodes ∧ s.net = sm.net ∧
+      (∀ c, (s.nodes c).role = .leader →
+        tl (s.nodes c).term = (s.nodes c).log ∧ cm (s.nodes c).term = (s.nodes c).commitIndex) ∧
+      (∀ u, cm u ≤ (tl u).length) ∧
+      ∀ v, ∃ t, ((∃ c, sm.elected c t) ∨ (s.nodes v).commitIndex = 0) ∧ (s.nodes v).commitIndex ≤ cm t ∧
+        (s.nodes v).log.take (s.nodes v).commitIndex = (tl t).take (s.nodes v).commitIndex := by
+  obtain ⟨sm, hrm, hn, hnet, _⟩ := Raft.aux_reach_sim n s h
+  obtain ⟨tl, cm, hg⟩ := Raft.aux_greach_exists n sm hrm
+  obtain ⟨_, hi, hc⟩ := Raft.aux_greach_inv n sm tl cm hg
+  refine ⟨sm, tl, cm, hg, hn, hnet, ?_, hc.cmLe, ?_⟩
+  · intro c hr; rw [hn] at hr ⊢; exact ⟨hi.leaderLog c hr, hc.leaderCm c hr⟩
+  · intro v; rw [hn]; exact hc.nodeC v
+
+/-! non-vacuity of the commit statements: the execution of `RaftExample` continued by a heartbeat of the
+    leader, the follower's acceptance and the leader's commit - six `raft_step` calls after which member 0 has
+    committed position 1 and member 1 holds the same entry -/
+namespace RaftExample
+open Raft
+def ae1 : Rpc := .appendEntries 1 0 0 0 [{ msg := 7, term := 1, index := 1 }] 0
+def rd : StepResult := (raftStep rc.st (mkInput 3 0 false true [] [])).getD default
+theorem aux_hd : raftStep (sc.nodes 0) (mkInput 3 0 false true [] []) = some rd := by rfl
+def sd : Sys := sc.update 0 rd.st rd.out.outbound
+def re : StepResult := (raftStep rb.st (mkInput 3 1 false false [] [(0, ae1)])).getD default
+theorem aux_he : raftStep (sd.nodes 1) (mkInput 3 1 false false [] [(0, ae1)]) = some re := by rfl
+def se : Sys := sd.update 1 re.st re.out.outbound
+def rf : StepResult := (raftStep rd.st (mkInput 3 0 false false [] [(1, .appendEntriesReply 1 true 1)])).getD default
+theorem aux_hf : raftStep (se.nodes 0) (mkInput 3 0 false false [] [(1, .appendEntriesReply 1 true 1)]) = some rf := by rfl
+def sf : Sys := se.update 0 rf.st rf.out.outbound
+
+theorem aux_reach_sc : Reach 3 sc := by
+  have r1 : Reach 3 sa := .step .init (.tick initSys 0 true false [] [] ra (by decide) (by intro sm h; cases h) aux_ha)
+  have r2 : Reach 3 sb := by
+    refine .step r1 (.tick sa 1 false false [] [(0, .requestVote 1 0 0)] rb (by decide) ?_ aux_hb)
+    intro sm h; simp at h; subst h
+    exact Or.inr ⟨rfl, by decide⟩
+  refine .step r2 (.tick sb 0 false false [7] [(1, .requestVoteResponse 1)] rc (by decide) ?_ aux_hc)
+  intro sm h; simp at h; subst h
+  exact Or.inr ⟨rfl, by decide⟩
+
+example : Reach 3 sf ∧ (sf.nodes 0).commitIndex = 1 ∧ (sf.nodes 0).role = .leader ∧
+    (sf.nodes 1).log = (sf.nodes 0).log ∧ (sf.nodes 0).log = [{ msg := 7, term := 1, index := 1 }] := by
+  have r4 : Reach 3 sd := .step aux_reach_sc (.tick sc 0 false true [] [] rd (by decide) (by intro sm h; cases h) aux_hd)
+  have r5 : Reach 3 se := by
+    refine .step r4 (.tick sd 1 false false [] [(0, ae1)] re (by decide) ?_ aux_he)
+    intro sm h; simp at h; subst h
+    exact Or.inr ⟨rfl, by decide⟩
+  refine ⟨.step r5 (.tick se 0 false false [] [(1, .appendEntriesReply 1 true 1)] rf (by decide) ?_ aux_hf),
+    by rfl, by rfl, by rfl, by rfl⟩
+  intro sm h; simp at h; subst h
+  exact Or.inr ⟨rfl, by decide⟩
+end RaftExample
 
 end HvProto.C40
